@@ -54,7 +54,9 @@ class Defs:
                         self.partial[p["l"]].append((bi, si, s))
                     rv = s["rv"]
                     if rv["k"] in ("ref", "rawptr") and rv.get("m", True):
-                        self.mut_borrowed[rv["p"]["l"]] = True
+                        # a mutable borrow of the local's own storage (not of what it points to)
+                        if not any(e["k"] == "deref" for e in rv["p"]["pr"]):
+                            self.mut_borrowed[rv["p"]["l"]] = True
                 elif s["k"] == "setdiscr":
                     self.partial[s["p"]["l"]].append((bi, si, s))
             t = blk["t"]
@@ -107,6 +109,10 @@ class Terms:
         else:
             t = self.rvalue(x)
         self._busy.discard(l)
+        if self.defs.mut_borrowed[l]:
+            # initialised once but later mutated through a `&mut` view (Vec::push, copy_from_slice,
+            # Iterator::next ...): the term records the initial value and says so.
+            t = ("mut", l, t)
         self._memo[l] = t
         return t
 
@@ -232,6 +238,13 @@ def strip(t):
         return t
 
 
+def unmut(t):
+    """look through refs and the `mut` marker (for iterator / builder values consumed right after creation)"""
+    while t[0] in ("ref", "deref", "mut"):
+        t = t[1] if t[0] != "mut" else t[2]
+    return t
+
+
 TRANSPARENT_CALLS = {
     "Clone::clone", "Deref::deref", "DerefMut::deref_mut", "AsRef::as_ref", "Borrow::borrow", "Into::into",
     "From::from", "IntoIterator::into_iter", "ToOwned::to_owned",
@@ -313,7 +326,7 @@ def walk(t):
 
 KINDS = {"param", "const", "str", "bytes", "fn", "static", "cdef", "mem", "call", "bin", "un", "cast", "field",
          "deref", "ref", "index", "cindex", "downcast", "discr", "len", "aggr", "var", "uninit", "repeat", "zst",
-         "const?", "subslice", "proj?", "rv?", "op?", "try", "carg", "cenv"}
+         "const?", "subslice", "proj?", "rv?", "op?", "try", "carg", "cenv", "mut"}
 
 
 def calls_in(t):
@@ -367,6 +380,8 @@ def show(t, depth=0):
         return "var_%d" % t[1]
     if k == "try":
         return "%s?" % show(t[1], d)
+    if k == "mut":
+        return "mut(%s)" % show(t[2], d)
     if k == "carg":
         return "carg%d" % t[1]
     return str(t)
